@@ -560,6 +560,11 @@ func (hni *HyperNodesInfo) GetRegexOrLabelMatchLeafHyperNodes() sets.Set[string]
 	return leaf
 }
 
+// HyperNodeHasRealNode reports whether the node set of the hyperNode currently contains the node.
+func (hni *HyperNodesInfo) HyperNodeHasRealNode(hyperNodeName, nodeName string) bool {
+	return hni.realNodesSet[hyperNodeName].Has(nodeName)
+}
+
 // addChild adds the HyperNode member to the parent and sets the parent of a HyperNode member.
 func (hni *HyperNodesInfo) addChild(parent, member string) error {
 	parentHn, ok := hni.hyperNodes[parent]
